@@ -157,12 +157,25 @@ def _stored_value(draw, dom, tuples):
     return v
 
 
-def draw_mutator(draw, world, hi, dom, methods=None, p_raise=1, tuples=False, refs=False):
+def draw_mutator(draw, world, hi, dom, methods=None, p_raise=1, tuples=False, refs=False, p_inv=0):
     """Draw one mutator op step for handle ``hi`` (mostly succeeding; ~p_raise/10 raising)."""
     h = world.handles[hi]
     cont = world.model_at(h)
     ms = methods or ops.MUTATORS[h.kind]
     m = draw(st.sampled_from(ms))
+    if p_inv and draw(st.integers(0, 99)) < p_inv:
+        # a call whose ONLY payload is forbidden data (a mapping with a non-str key): must be
+        # rejected by every family and change nothing
+        inv = {"$inv": "intkey"}
+        if h.kind == "dict":
+            m2 = draw(st.sampled_from(["setitem", "update", "reset", "setdefault"]))
+            a = {"setitem": ["zz", inv], "update": [{"zz": inv}], "reset": [{"zz": inv}],
+                 "setdefault": ["zz_new", inv]}[m2]
+        else:
+            m2 = draw(st.sampled_from(["append", "insert", "extend", "reset", "iadd"]))
+            a = {"append": [inv], "insert": [0, inv], "extend": [[inv]], "reset": [[inv]], "iadd": [[inv]]}[m2]
+        if methods is None or m2 in methods:
+            return {"t": "op", "h": hi, "m": m2, "a": a}
     want_raise = draw(st.integers(0, 9)) < p_raise
     a, kw = [], {}
     val = lambda: _stored_value(draw, dom, tuples)  # noqa: E731
